@@ -196,6 +196,7 @@ PROPS = {
             "Xet.CrashFS.C19_cache_item_name",
             "Xet.CrashFS.C19_reopen_inv_shard",
             "Xet.CrashFS.C19_reopen_inv_cache",
+            "Xet.CrashFS.C19_temp_name_entropy",
         ],
         "suites": ["crash"],
         "level_text": "For every operation that publishes a file under a final name (shard flush, write_out_from_reader, shard_file_op, "
